@@ -1194,10 +1194,17 @@ fn c09_core(g: &mut Inner, st: &mut State, op: &str, se: EdgeId, mem: Vec<Option
                     evs(g, se, Dir::Down, &[Kind::Data]).into_iter().filter(|i| g.events[*i].t_in < m.t.greet_in).count();
                 if pulls_before > data_before && ts.open_at(m.t.greet_in) {
                     bump(st, "c09.outstanding-pull");
+                    // "re-issued so that a puller never stalls at a boundary": without further
+                    // prompting, i.e. before the env step in which the member greeted is over (the
+                    // statement does not say that it has to happen inside the greeting call itself)
+                    let gstep = g.events[m.t.greet_ev as usize].step;
                     let reissued = evs(g, m.edge, Dir::Up, &[Kind::Pull])
                         .into_iter()
-                        .any(|i| within(g, i, m.t.greet_ev as usize));
-                    if !reissued {
+                        .any(|i| g.events[i].t_in > m.t.greet_in && g.events[i].step == gstep);
+                    // a member that ends by itself in that very step before it was pulled needs no
+                    // Pull any more: the outstanding Pull then goes to ITS successor (judged there)
+                    let ended_unpulled = m.t.dterm_ev >= 0 && g.events[m.t.dterm_ev as usize].step == gstep;
+                    if !reissued && !ended_unpulled {
                         report(
                             g,
                             st,
